@@ -601,11 +601,14 @@ func genBlobs(c *core.Ctx) {
 	good := blobFor(0x3f, key, core.Payload(50, 16), core.Payload(70, 16), 7, 9, core.Payload(2, 32), core.Payload(9, 32), []byte("<192.168.1.5:9618?sock=abc>"))
 	var blobs [][]byte
 	blobs = append(blobs, good, blobFor(0, key, make([]byte, 16), make([]byte, 16), 0, 0xffffffff, nil, nil, nil))
-	for k := 0; k <= len(good); k++ { // every truncation (quick: every third, and all around the fixed prefix)
-		if c.Quick() && k%3 != 0 && (k < 76 || k > 84) && k < len(good)-3 {
-			continue
-		}
+	for k := 0; k <= len(good); k++ { // EVERY prefix of a valid blob (each handed over with cap = len)
 		blobs = append(blobs, good[:k])
+	}
+	// short blobs around the magic / version fields with wrong contents
+	for _, head := range [][]byte{[]byte("CDRX"), []byte("CDRY"), []byte("cdrx"), {0, 0, 0, 0}, []byte("CDR")} {
+		for _, tail := range [][]byte{nil, {0}, {0, 1}, {0, 2}, {1, 0}, {0xff, 0xff}, {0, 1, 0}, {0, 1, 0x3f, 9}} {
+			blobs = append(blobs, append(append([]byte(nil), head...), tail...))
+		}
 	}
 	fixed := int(stream.VerifCryptoStateFixedLen)
 	for _, off := range []int{fixed, fixed + 2 + 32, fixed + 4 + 64} { // every variable-length field
